@@ -10,6 +10,10 @@ Line-protocol driver of the C08 model (header `spacebounds …`; the header's `s
       -> `sat=<b> ui=<n> gi=<n> | <sampled state>`
   subs <u|n|g> <plen> <k>*plen <dist> <space> <state> <near> <scripted substate>
       -> `out=<full state> | call=<U|N|G> d=<distance given to the inner sampler> near=<substate given to it>`
+  det <so2|rv|se2> <halton|list|file> <n> <m> <value>*m <space>
+      -> `<state> ; <state> ; …`  (n calls of sampleUniform of the deterministic samplers; Halton as coded)
+  hn <int|real> <rmin> <rmax> <focus> <s0> <s1> <s2> <s3>
+      -> `r=<int or double bits> g=<gaussian01 draw>` (the draw through C20's OmplModel.Rng: MT state words -> polar method)
   uint <h|s|c> <lo> <hi> <s0> <s1>
       `RNG::uniformInt(lo, hi)` on the draw that `std::mt19937` + `uniform_real_distribution` (C20's model:
       OmplModel.Rng.MT / uni01) produce from the state words s0, s1 (index 0, no twist)
@@ -148,7 +152,14 @@ def step (st : St) (ts : List String) : St × String :=
           pure (k :: ks, r)
       let (path, r) ← pPath plen r
       let (d, r) ← pFloat r
-      let (sp, r) ← pSpace r
+      let (sp0, r) ← pSpace r
+      -- a TOP-LEVEL wrapper is transparent for a non-empty path: WrapperStateSpace::allocSubspaceStateSampler forwards to
+      -- the wrapped space (same weight convention) and, as proposed for finding F168, must hand the wrapped STATES to it
+      let rec strip : Space Float → Space Float
+        | .wrap s => strip s
+        | s => s
+      let wrappedTop := false
+      let sp := if (match sp0 with | .wrap _ => true | _ => false) && !path.isEmpty then strip sp0 else sp0
       if !validPath sp path || hasWrappedCompound sp then none else
       -- a wrapper as the sampled subspace has no common substate names with its parent (OMPL: "Sampling will have
       -- no effect"); not modelled, rejected on both sides
@@ -156,15 +167,61 @@ def step (st : St) (ts : List String) : St × String :=
       let (s0, r) ← pState sp r
       let (near, r) ← pState sp r
       let (w, r) ← pState (subAt sp path) r
-      if r.isEmpty then pure (path, d, sp, s0, near, w) else none) with
-    | some (path, d, sp, s0, near, w) =>
+      if r.isEmpty then pure (path, (if wrappedTop then d else d * subWeight sp path), sp, s0, near, w) else none) with
+    | some (path, dw, sp, s0, near, w) =>
       let out := showSt (setAt s0 path w)
       match kind with
       | "u" => (st, s!"out={out} | call=U d=- near=-")
-      | "n" => (st, s!"out={out} | call=N d={floatBits (d * subWeight sp path)} near={showSt (getAt near path)}")
-      | "g" => (st, s!"out={out} | call=G d={floatBits (d * subWeight sp path)} near={showSt (getAt near path)}")
+      | "n" => (st, s!"out={out} | call=N d={floatBits dw} near={showSt (getAt near path)}")
+      | "g" => (st, s!"out={out} | call=G d={floatBits dw} near={showSt (getAt near path)}")
       | _ => (st, "bad-op")
     | none => (st, "bad-op")
+  | "det" :: which :: seq :: r =>
+    match (do
+      let (n, r) ← pNat r
+      let (m, r) ← pNat r
+      let (vals, r) ← pFloats m r
+      let (sp, r) ← pSpace r
+      if r.isEmpty then pure (n, vals.toArray, sp) else none) with
+    | some (n, vals, sp) =>
+      let dimOk : Option (Nat × (List Float → OmplModel.St Float)) :=
+        match which, sp with
+        | "so2", .so2 => some (1, fun p => .so2 (detSO2 (p.headD 0.0)))
+        | "rv", .rv lo hi => if lo.length ≥ 1 then some (lo.length, fun p => .rv (detRv lo hi p)) else none
+        | "se2", .ccons _ (.rv lo hi) (.ccons _ .so2 .cnil) =>
+          if lo.length == 2 then
+            some (3, fun p => .ccons (.rv (detRv lo hi (p.take 2))) (.ccons (.so2 (detSO2 (p.getD 2 0.0))) .cnil))
+          else none
+        | _, _ => none
+      match dimOk with
+      | none => (st, "bad-op")
+      | some (dim, mk) =>
+        if (seq != "halton" && seq != "list" && seq != "file") || (seq != "halton" && vals.size < 1) ||
+            (seq == "file" && vals.size % dim != 0) then (st, "bad-op")
+        else
+          let point (q : Nat) : List Float :=
+            if seq == "halton" then haltonPoint dim q
+            else if seq == "list" then (List.range dim).map (fun j => vals.getD ((q * dim + j) % vals.size) 0.0)
+            else
+              -- PrecomputedSequence: rows of the file, wrapping around to the first row when exhausted
+              let rows := vals.size / dim
+              (List.range dim).map (fun j => vals.getD ((q % rows) * dim + j) 0.0)
+          (st, " ; ".intercalate ((List.range n).map (fun q => showSt (mk (point q)))))
+    | none => (st, "bad-op")
+  | ["hn", kind, lo, hi, focus, s0, s1, s2, s3] =>
+    match parseInt? lo, parseInt? hi, parseFloatBits? focus, [s0, s1, s2, s3].mapM parseNat? with
+    | some lo, some hi, some focus, some ws =>
+      if (kind != "int" && kind != "real") || ws.any (· ≥ 4294967296) || lo < -2147483648 || hi > 2147483647 || hi < lo
+      then (st, "bad-op")
+      else
+        let rng : OmplModel.Rng.Rng :=
+          { localSeed := 0, gen := { x := (ws.map Nat.toUInt32).toArray, p := 0 }, savedAvail := false, saved := 0.0 }
+        match rng.normal.1 with
+        | none => (st, "short")
+        | some g =>
+          if kind == "int" then (st, s!"r={halfNormalInt lo hi focus g} g={floatBits g}")
+          else (st, s!"r={floatBits (halfNormalReal (Float.ofInt lo) (Float.ofInt hi) focus g)} g={floatBits g}")
+    | _, _, _, _ => (st, "bad-op")
   | ["uint", mode, lo, hi, s0, s1] =>
     match parseInt? lo, parseInt? hi, parseNat? s0, parseNat? s1 with
     | some lo, some hi, some s0, some s1 =>
